@@ -51,7 +51,7 @@ def run_c15(ctx):
     root = w.root
     kind = t.pick(["scalar", "tuple2", "int", "str"], "kind")
     engine = t.pick(["pickle", "csv"], "engine")
-    approx = engine == "csv"
+    approx = False  # csv too: full-precision text round-trips exactly
     data_name = os.path.join(root, "tab." + ("pkl" if engine == "pickle" else "csv"))
     # arguments: a (choices), b (choices or generator), optional c; constants k (runner) / m (per run)
     a_vals = t.perm(G.POOLS["int"], "a")[: t.int_between(1, 4, "na")]
@@ -191,12 +191,14 @@ def run_c15(ctx):
 
     nops = t.int_between(1, 6, "nops")
     ncrops = 0
+    prev_crop = {}
     for opi in range(nops):
         t.mark()
         op = t.weighted([("sample_combos", 4), ("crop", 3), ("new_session", 2)], "op")
         if op == "new_session":
             ctx.t("new_session")
             session["s"] = None
+            prev_crop.clear()
             ctx.stats["op-new_session"] += 1
             continue
         n = t.int_between(1, 5, "n")
@@ -236,13 +238,22 @@ def run_c15(ctx):
             mem, _ = call("session-read", lambda: s.full_df)
             check_after(op, n, mem, allowed_now, m_const)
         else:
-            ncrops += 1
-            name = "sc{}".format(ncrops)
-            batching = G.gen_batching(t, n)
-            ckw = {}
-            if batching["how"] != "none":
-                ckw[batching["how"]] = batching["value"]
-            reuse = t.flag(1, 3, "reap-with-session-object")
+            again = None
+            if prev_crop.get("obj") is not None and t.flag(1, 4, "same-crop-object-again"):
+                # the session keeps its Crop object and runs another sow / grow / reap cycle
+                # with it (the first cycle's reap removed the crop from disk)
+                again = prev_crop
+                name, ckw = again["name"], dict(again["ckw"])
+                n = again["n"]  # (a Crop object keeps its batch layout: the same number of samples)
+                ctx.stats["crop-object-reused-for-another-cycle"] += 1
+            else:
+                ncrops += 1
+                name = "sc{}".format(ncrops)
+                batching = G.gen_batching(t, n)
+                ckw = {}
+                if batching["how"] != "none":
+                    ckw[batching["how"]] = batching["value"]
+            reuse = t.flag(1, 3, "reap-with-session-object") or again is not None
             ctx.t("crop", {"n": n, "combos": override, "m": m_const, "np-seed": seed,
                            "batching": ckw, "reap-by": "session" if reuse else "fresh process"})
             s = get_s()
@@ -250,7 +261,7 @@ def run_c15(ctx):
 
             def sow():
                 np.random.seed(seed)
-                c = s.Crop(name=name, parent_dir=root, **ckw)
+                c = again["obj"] if again is not None else s.Crop(name=name, parent_dir=root, **ckw)
                 c.sow_samples(n, combos=override, constants={"m": m_const} if m_const else None,
                               verbosity=0)
                 holder["crop"] = c
@@ -276,6 +287,8 @@ def run_c15(ctx):
             check_after(op, n, mem, allowed_now, m_const)
             if G.rexists(loc):
                 raise Violation("crop-left-after-reap", "sampler crop not cleaned up")
+            # (only an object of the current session can be used again)
+            prev_crop.update(obj=holder["crop"], name=name, ckw=ckw, n=n)
             # (when a fresh process reaped, the session object's cached table is now
             # stale; its next run must re-load before appending)
     ctx.nontrivial = len(model) >= 2
